@@ -666,6 +666,15 @@ func c02R4(p *Prog, r *Report) {
 			okDef = true
 		}
 		r.Check(okDef, rule, "ss2022.(*StreamServer).HandleStream:n-def:"+exprStr(hs.G.V[d].Node), p.posStr(hs.G.V[d].Node.Pos()), "n is the count of the first read", "n is assigned from something other than the first read's count")
+		// once closed, the window stays closed: no statement that gives n a value is reachable
+		// from a close
+		reopened := false
+		for _, cv := range closeVs {
+			if hs.G.ReachAfter(cv, nil, nil)[d] {
+				reopened = true
+			}
+		}
+		r.Check(!reopened, rule, "ss2022.(*StreamServer).HandleStream:window-stays-closed:"+exprStr(hs.G.V[d].Node), p.posStr(hs.G.V[d].Node.Pos()), "not reachable after n = 0", "after the fallback window was closed (n = 0 past authentication) n is given a value again ("+exprStr(hs.G.V[d].Node)+"): a later failure — a tampered or truncated variable-length header — triggers the fallback with a buffer that has been reused, and the handshake is answered as if it were a foreign protocol")
 	}
 	// deferred handler
 	for _, lit := range hs.Lits() {
